@@ -891,6 +891,38 @@ fn gen_dyn_helper_fns(goenv: &GlobalGoEnv, req: &DynRequirements) -> Vec<goast::
     items
 }
 
+fn compile_dyn_payload(goenv: &GlobalGoEnv, expr: &anf::ImmExpr) -> goast::Expr {
+    let value = compile_imm(goenv, expr);
+    let anf::ImmExpr::ImmPrim { ty, .. } = expr else {
+        return value;
+    };
+    let conversion = match ty {
+        tast::Ty::TInt8 => "int8",
+        tast::Ty::TInt16 => "int16",
+        tast::Ty::TInt32 => "int32",
+        tast::Ty::TInt64 => "int64",
+        tast::Ty::TUint8 => "uint8",
+        tast::Ty::TUint16 => "uint16",
+        tast::Ty::TUint32 => "uint32",
+        tast::Ty::TUint64 => "uint64",
+        tast::Ty::TFloat32 => "float32",
+        tast::Ty::TFloat64 => "float64",
+        _ => return value,
+    };
+    let go_ty = tast_ty_to_go_type(ty);
+    goast::Expr::Call {
+        func: Box::new(goast::Expr::Var {
+            name: conversion.to_string(),
+            ty: goty::GoType::TFunc {
+                params: vec![go_ty.clone()],
+                ret_ty: Box::new(go_ty.clone()),
+            },
+        }),
+        args: vec![value],
+        ty: go_ty,
+    }
+}
+
 fn gen_dyn_wrap_fn(
     trait_name: &str,
     for_ty: &tast::Ty,
@@ -1217,7 +1249,7 @@ fn compile_cexpr(goenv: &GlobalGoEnv, e: &anf::CExpr) -> goast::Expr {
 
             goast::Expr::StructLiteral {
                 fields: vec![
-                    ("data".to_string(), compile_imm(goenv, expr)),
+                    ("data".to_string(), compile_dyn_payload(goenv, expr)),
                     ("vtable".to_string(), vtable_expr),
                 ],
                 ty: dyn_struct_ty,
